@@ -8,10 +8,13 @@
    on the Client model for the one-command operations set/add/replace/append/prepend, delete, incr, decr, touch,
    flush_all (the c05_e2e theorems): on a connected client with nothing pending, a fault-free transport and the specification
    server as the peer, run_op returns exactly the documented result of what the server did, the server state
-   advances by exactly that command, and nothing is left unread.  Still checked rather than proved: retrievals
-   (C04), cas, the multi-key operations, and calls that have to (re)connect first. *)
+   advances by exactly that command, and nothing is left unread; the same for cas (c05_e2e_cas: True / False / None as
+   the item was stored, changed by someone else, or absent) and for the multi-command operations set_many and delete_many
+   (c05_e2e_set_many, c05_e2e_delete_many: the server executes exactly the intended commands in order, the client reads
+   one reply line per command).  Retrievals end to end are in Properties/C04.v.  Still checked rather than proved: gat/gats
+   (retime + retrieve), calls that have to (re)connect first, and the Pooled/Hash stacks. *)
 From Coq Require Import ZArith List Bool.
-From PM Require Import Lib.Py Model.Lits Spec.Proto Spec.Server Model.World Model.Client Proofs.Hoare Proofs.C02Proof Proofs.C05Proof Proofs.Quiet Proofs.E2E.
+From PM Require Import Lib.Py Model.Lits Spec.Proto Spec.Server Model.World Model.Client Proofs.Hoare Proofs.C02Proof Proofs.C05Proof Proofs.Quiet Proofs.E2E Proofs.E2EMany.
 Import ListNotations.
 Open Scope Z_scope.
 
@@ -91,6 +94,37 @@ Theorem c05_e2e_store : forall c, (forall e, exn_isa e Exception_ = true -> exn_
         (fun r w => r = (if nr then DBool true else contract_store o) /\ St sstate sid s' [] w) (fun _ _ => False).
 Proof. exact E2E.store_e2e. Qed.
 Print Assumptions c05_e2e_store.
+
+(* cas: True when stored, False when the item changed since the gets, None when it is absent (True under noreply) *)
+Theorem c05_e2e_cas : forall c, (forall e, exn_isa e Exception_ = true -> exn_isa e (h_store c) = true) ->
+  forall sid s key value cas expire n flags cb bytes,
+  check_cas c cas = Ok cb ->
+  let nr := py_truthy n in
+  store_bytes c L_cas [(key, value)] expire nr flags (Some cb) = Ok bytes -> in_i64 expire -> in_u32 flags ->
+  exists k f e db, store_intent c VCas [(key, value)] expire nr flags cb = Ok [CStore VCas k f e db cb nr] /\
+  let s' := fst (exec s (CStore VCas k f e db cb nr)) in let o := snd (exec s (CStore VCas k f e db cb nr)) in
+  hoare (St sstate sid s []) (run_op sstate serve c (OpCas key value cas expire n flags))
+        (fun r w => r = (if nr then DBool true else contract_store o) /\ St sstate sid s' [] w) (fun _ _ => False).
+Proof. exact E2E.cas_e2e. Qed.
+Print Assumptions c05_e2e_cas.
+(* set_many: every item is stored in order, the list of failed keys is empty *)
+Theorem c05_e2e_set_many : forall c, (forall e, exn_isa e Exception_ = true -> exn_isa e (h_store c) = true) ->
+  forall sid s pairs expire n flags bytes,
+  let nr := eff_noreply c n in
+  store_bytes c L_set pairs expire nr flags None = Ok bytes -> in_i64 expire -> in_u32 flags ->
+  exists cmds, store_intent c VSet pairs expire nr flags [] = Ok cmds /\ Forall (is_set nr) cmds /\ length cmds = length pairs /\
+  hoare (St sstate sid s []) (run_op sstate serve c (OpSetMany pairs expire n flags))
+        (fun r w => r = DList [] /\ St sstate sid (fst (run_cmds s cmds)) [] w) (fun _ _ => False).
+Proof. exact E2EMany.set_many_e2e. Qed.
+Print Assumptions c05_e2e_set_many.
+(* delete_many: every key is deleted in order, the call returns True *)
+Theorem c05_e2e_delete_many : forall c, (forall e, exn_isa e Exception_ = true -> exn_isa e (h_misc c) = true) ->
+  forall sid s (oneshot : bool) keys n ks, legal_keys c keys = Ok ks ->
+  let nr := eff_noreply c n in
+  hoare (St sstate sid s []) (run_op sstate serve c (OpDeleteMany oneshot keys n))
+        (fun r w => r = DBool true /\ St sstate sid (fst (run_cmds s (map (fun k => CDelete k nr) ks))) [] w) (fun _ _ => False).
+Proof. exact E2EMany.delete_many_e2e. Qed.
+Print Assumptions c05_e2e_delete_many.
 
 (* non-vacuity: a short history with a cas race, a counter and an expiry *)
 Example c05_ex :
